@@ -7,7 +7,7 @@ from gen import bytes_upto
 LEVEL = "proof"
 
 
-def run(chk):
+def _run_once(chk):
     chk.rule = ("fast-path domain: 1-byte ASCII delimiters, bounds ascending/descending/repeated/negative/mixed/open/formatted/with fallbacks, "
                 "subsets of -j -s -z -t --fallback-oob; each case is run through both entry points; lists whose right-most bound is "
                 "below/equal/above the field count exercise the early stop; non-trivial = selects a byte or fails")
@@ -61,3 +61,9 @@ def run(chk):
             if x != y:
                 chk.report_oracle("the default build and the build without the fast lane differ",
                                   {"argv": argv, "stdin_hex": inp.hex(), "default_build": [x[0], x[1].hex()], "no_fast_lane_build": [y[0], y[1].hex()]})
+
+
+def run(chk):
+    # thorough = several independent rounds of the same generators (the PRNG keeps advancing), so that memory stays bounded
+    for _round in range(1 if chk.tier == "quick" else 6):
+        _run_once(chk)
